@@ -5,6 +5,7 @@ import (
 	"fmt"
 	"hash/fnv"
 	"io"
+	"math"
 	"sort"
 	"strings"
 
@@ -84,6 +85,7 @@ type world struct {
 	env  *refeval.Env
 	opts []xsel.ContextApply
 	ref  bool // realised through R-ref
+	lazy bool // R-ref queried through the view that allocates a cursor value per access (identity is Pos())
 }
 
 func newWorld(d *adoc.Doc) (*world, error) {
@@ -191,7 +193,11 @@ func (w *world) libEval(n *adoc.Node, expr string, extra ...xsel.ContextApply) (
 	if len(extra) > 0 {
 		opts = append(append([]xsel.ContextApply{}, w.opts...), extra...)
 	}
-	res, err := ExecStr(w.m.ToC[n], expr, opts...)
+	start := w.m.ToC[n]
+	if w.lazy {
+		start = bridge.LazyOf(start)
+	}
+	res, err := ExecStr(start, expr, opts...)
 	if err != nil {
 		return nil, nil, err
 	}
@@ -274,4 +280,180 @@ func (w *world) checkStr(r *evid.Run, class string, caseIdx int, n *adoc.Node, e
 func nontrivialSet(v refeval.Value, total int) bool {
 	ns, ok := v.(refeval.NodeSet)
 	return ok && len(ns) > 0 && len(ns) < total
+}
+
+// foreignSection: nodes of a second tree enter one query on the first — bound to $o and returned by
+// the custom function o() — as an embedding program does when it joins two documents. The query is
+// concat(EA,'|',EB) and concat(EB,'|',EA), where EA looks only at the queried tree and EB only at
+// $o / o(); the expected value is therefore model(EA on tree A) + '|' + model(EB on tree B), and
+// for mixed comparisons 'pathA op $o' the existential rule over the two sets of string-values.
+// Positions of the two trees coincide, so anything keyed by Pos() within one Exec shows here.
+func foreignSection(r *evid.Run, class string, idx int, g *rng.R, w *world, o adoc.GenOpts, mkEA func(g *rng.R, w *world) xast.Expr, mkEB func(g *rng.R, wB *world, ov xast.Expr) xast.Expr) {
+	dB := adoc.Generate(g, o)
+	wB, err := newWorld(dB)
+	if err != nil {
+		return
+	}
+	var pick []*adoc.Node
+	switch g.Intn(4) {
+	case 0:
+		pick = []*adoc.Node{dB.Root}
+	case 1:
+		pick = []*adoc.Node{rng.Pick(g, dB.Elements())}
+	default:
+		for _, n := range dB.All {
+			if n.Kind != adoc.NS && g.P(30) {
+				pick = append(pick, n)
+			}
+		}
+	}
+	set := refeval.NodeSet(adoc.SortDoc(pick))
+	lib := append(xsel.NodeSet{}, wB.m.Lib(set).(xsel.NodeSet)...)
+	if g.Bool() {
+		rng.Shuffle(g, lib)
+	}
+	wB.env.Vars = map[refeval.Name]refeval.Value{{Local: "o"}: set}
+	wB.env.Funcs = map[refeval.Name]refeval.Func{{Local: "o"}: func(refeval.Ctx, refeval.NodeSet, []refeval.Value) (refeval.Value, error) { return set, nil }}
+	binds := append(append([]xsel.ContextApply{}, w.opts...), xsel.WithVariable("o", lib), xsel.WithFunction("o", func(xsel.Context, ...xsel.Result) (xsel.Result, error) {
+		return append(xsel.NodeSet{}, lib...), nil
+	}))
+	for i := 0; i < 6; i++ {
+		var ov xast.Expr = xast.Var{Local: "o"}
+		if g.P(30) {
+			ov = xast.Fn("o")
+		}
+		ea, eb := mkEA(g, w), mkEB(g, wB, ov)
+		va, erra := w.modelEval(w.d.Root, ea)
+		vb, errb := wB.modelEval(dB.Root, eb)
+		if erra != nil || errb != nil {
+			continue
+		}
+		want := refeval.ToString(va) + "|" + refeval.ToString(vb)
+		e := xast.Fn("concat", xast.Fn("string", ea), xast.Lit{S: "|"}, xast.Fn("string", eb))
+		if g.Bool() {
+			want = refeval.ToString(vb) + "|" + refeval.ToString(va)
+			e = xast.Fn("concat", xast.Fn("string", eb), xast.Lit{S: "|"}, xast.Fn("string", ea))
+		}
+		src := xast.String(e)
+		res, xerr := ExecStr(w.m.Root, src, binds...)
+		r.Eval(1)
+		r.Count("queries_joining_two_documents", 1)
+		got, isStr := res.(xsel.String)
+		okNum := false
+		if isStr && string(got) != want {
+			// number formatting may legitimately differ in spelling: compare part-wise as numbers where both parse
+			gp, wp := strings.SplitN(string(got), "|", 2), strings.SplitN(want, "|", 2)
+			if len(gp) == 2 && len(wp) == 2 {
+				okNum = true
+				for k := 0; k < 2; k++ {
+					if gp[k] != wp[k] && !(refeval.AcceptNumberString(refeval.StringToNumber(wp[k]), gp[k]) && wp[k] != "" && !math.IsNaN(refeval.StringToNumber(wp[k]))) {
+						okNum = false
+					}
+				}
+			}
+		}
+		if xerr != nil || !isStr || (string(got) != want && !okNum) {
+			r.Violate(class, map[string]any{"case": idx, "what": fmt.Sprintf("%s with $o / o() = %d nodes of a second document gives %v (%v), expected %q", src, len(lib), res, errStr(xerr), want), "document": w.d.Dump(), "other_document": dB.Dump()})
+			continue
+		}
+		r.Sig(class+"|"+src, true)
+	}
+	// mixed comparisons: a node-set of the queried tree against $o — true iff some pair of string-values is (un)equal
+	for i := 0; i < 4; i++ {
+		pa := rng.Pick(g, []xast.Expr{xast.Abs(xast.DS(), xast.S("child", xast.AnyT())), xast.Abs(xast.DS(), xast.Step{Axis: "attribute", Test: xast.AnyT(), Abbrev: true}),
+			xast.Abs(xast.DS(), xast.S("child", xast.Test{Kind: xast.TText})), xast.Abs(xast.S("child", xast.AnyT()))})
+		va, erra := w.modelEval(w.d.Root, pa)
+		setA, ok := va.(refeval.NodeSet)
+		if erra != nil || !ok {
+			continue
+		}
+		op := rng.Pick(g, []string{"=", "!="})
+		want := false
+		for _, a := range setA {
+			for _, b := range set {
+				if (a.StringValue() == b.StringValue()) == (op == "=") {
+					want = true
+				}
+			}
+		}
+		var e xast.Expr = xast.Binary{Op: op, L: pa, R: xast.Var{Local: "o"}}
+		if g.Bool() {
+			e = xast.Binary{Op: op, L: xast.Var{Local: "o"}, R: pa}
+		}
+		if g.P(30) {
+			// evaluated once per node of the queried tree, inside a predicate
+			e = xast.Binary{Op: "=", L: xast.Fn("count", xast.Abs(xast.DS(), xast.S("child", xast.AnyT(), xast.Binary{Op: op, L: xast.Rel(xast.Step{Axis: "self", Test: xast.NodeT(), Abbrev: true}), R: xast.Var{Local: "o"}}))), R: xast.N(-1)}
+			n := 0
+			all, _ := w.modelEval(w.d.Root, xast.Abs(xast.DS(), xast.S("child", xast.AnyT())))
+			for _, a := range all.(refeval.NodeSet) {
+				hit := false
+				for _, b := range set {
+					if (a.StringValue() == b.StringValue()) == (op == "=") {
+						hit = true
+					}
+				}
+				if hit {
+					n++
+				}
+			}
+			e = xast.Fn("count", xast.Abs(xast.DS(), xast.S("child", xast.AnyT(), xast.Binary{Op: op, L: xast.Rel(xast.Step{Axis: "self", Test: xast.NodeT(), Abbrev: true}), R: xast.Var{Local: "o"}})))
+			src := xast.String(e)
+			res, xerr := ExecStr(w.m.Root, src, binds...)
+			r.Eval(1)
+			if num, isNum := res.(xsel.Number); xerr != nil || !isNum || float64(num) != float64(n) {
+				r.Violate(class, map[string]any{"case": idx, "what": fmt.Sprintf("%s with $o = %d nodes of a second document gives %v (%v), expected %d", src, len(lib), res, errStr(xerr), n), "document": w.d.Dump(), "other_document": dB.Dump()})
+			}
+			continue
+		}
+		src := xast.String(e)
+		res, xerr := ExecStr(w.m.Root, src, binds...)
+		r.Eval(1)
+		r.Count("comparisons_joining_two_documents", 1)
+		if b, isB := res.(xsel.Bool); xerr != nil || !isB || bool(b) != want {
+			r.Violate(class, map[string]any{"case": idx, "what": fmt.Sprintf("%s with $o = %d nodes of a second document gives %v (%v), expected %v", src, len(lib), res, errStr(xerr), want), "document": w.d.Dump(), "other_document": dB.Dump()})
+		}
+	}
+}
+
+
+func fsName(g *rng.R, w *world) xast.Test {
+	els, _, _ := vocab(w.d)
+	if len(els) > 0 && g.P(80) {
+		q := rng.Pick(g, els)
+		return xast.NameT(q.Prefix, q.Local)
+	}
+	return xast.AnyT()
+}
+
+func fsPathEA(g *rng.R, w *world) xast.Expr {
+	t := fsName(g, w)
+	switch g.Intn(4) {
+	case 0:
+		return xast.Fn("count", xast.Abs(xast.DS(), xast.S("child", t)))
+	case 1:
+		return xast.Fn("string", xast.Abs(xast.DS(), xast.S("child", t, xast.N(float64(g.Range(1, 2))))))
+	case 2:
+		return xast.Fn("count", xast.Abs(xast.S("descendant-or-self", xast.NodeT()), xast.S("child", xast.AnyT())))
+	}
+	return xast.Fn("count", xast.Rel(xast.Step{Axis: "self", Test: xast.NodeT(), Abbrev: true}, xast.DS(), xast.S("child", t)))
+}
+
+func fsPathEB(g *rng.R, wB *world, ov xast.Expr) xast.Expr {
+	t := fsName(g, wB)
+	ds := func(steps ...xast.Step) xast.Expr {
+		return xast.Path{Head: ov, Steps: append([]xast.Step{xast.DS()}, steps...)}
+	}
+	switch g.Intn(6) {
+	case 0:
+		return xast.Fn("count", ds(xast.S("child", t)))
+	case 1:
+		return xast.Fn("string", ds(xast.S("child", t, xast.N(float64(g.Range(1, 2))))))
+	case 2:
+		return xast.Fn("string", xast.Path{Head: xast.Paren{X: ds(xast.S("child", t))}, HPred: []xast.Expr{xast.Fn("last")}})
+	case 3:
+		return xast.Fn("count", xast.Path{Head: ov, Steps: []xast.Step{xast.S("descendant", xast.AnyT(), xast.Binary{Op: "<", L: xast.Fn("position"), R: xast.N(3)})}})
+	case 4:
+		return xast.Fn("count", xast.Path{Head: ov, HPred: []xast.Expr{xast.N(1)}, Steps: []xast.Step{xast.DS(), xast.S("child", xast.AnyT())}})
+	}
+	return xast.Fn("count", ds(xast.S("child", xast.NodeT())))
 }
